@@ -17,3 +17,23 @@ def nontrivial(s, t, v):
     if len(runs) < 2:
         return False
     return any(e["ev"] in ("kill", "setxattr", "write", "dbus") for tk in runs[1].get("ticks", []) for e in tk.get("events", []))
+
+
+# ---- dry run with prekill hooks configured: decided on the hook engine (see vlib/props/_hookpass.py) ----------------------
+
+def _more_dry(rng, s):
+    if rng.random() < 0.6:
+        s["cfg"]["args"]["dry"] = "true"
+
+
+def run(tier, seed, replay=None):
+    import sys
+    from . import _hookpass
+
+    def cov(res):
+        return {"hookdry_pass_dry_scenarios": sum(1 for s, t, v in res if s["cfg"]["args"].get("dry") == "true")}
+    return _hookpass.run(sys.modules[__name__], tier, seed, replay, "C04.", "hookdry",
+                         "dry pass (kill plugins with scripted prekill hooks, h_hook): the C07 scenario space with dry=true in 60% of "
+                         "the scenarios; clause: a dry plugin produces no signal, xattr write, control-file write, pidfd / "
+                         "process_mrelease call and no oomd.kills increment on any tick of a kill cycle a hook defers",
+                         tweak=_more_dry, extra_cov=cov)
